@@ -351,7 +351,8 @@ def r3(F, rep):
     marks = [w for w, t in lvalue_writes(f) if X.key(t, f).startswith("biases_need_main_thread") and w["k"] == "BinaryOperator"
              and C._lit(X.kids(w)[1]) == 1]
     if not marks:
-        raise AnalysisBroken("calc_biases: biases_need_main_thread = true not found")
+        rep.add("C12-R3", "mark|unconditional", f.loc(), "calc_biases() never marks a step as main-thread-only", False,
+                detail="biases that exchange data with peers would run inside the parallel loop", func=f.q)
     for w in marks:
         gs = f.cfg.real_guards(w)
         descr = []
